@@ -89,6 +89,8 @@ def generate(rng):
     if rng.random() < 0.25:
         scn['short_writes'] = [rng.choice([0, 1, 3, 100]) for _ in range(rng.randint(1, 4))]
     scn['in_cap'] = rng.choice([4096, 4096, 64])
+    if rng.random() < 0.2:
+        scn['outer_cc'] = rng.choice([[0, 5], [0, 0], [4, 2], [1, 1]])
     scn['hup_write'] = rng.choice(['ok', 'ok', 'ok', 'eio'])
     scn['after_interact'] = rng.random() < 0.5
     if esc is not None and scn.get('esc_how') != 'absent' and rng.random() < 0.12:
@@ -171,6 +173,15 @@ def run(scn, prop=None):
         outer_slave = PtySlave(outer)
         tty_fd = k.alloc_fd(outer_slave)
         outer.attr[1] &= ~OPOST      # the display's own newline processing is not under test
+        oc = scn.get('outer_cc')
+        if oc:
+            # the user's terminal is not in the textbook state when interact() is entered: an application that reads
+            # keys itself has left it non-canonical with its own VMIN / VTIME -- all of it must be back afterwards
+            import termios as _t
+            outer.attr[3] &= ~(ICANON | ECHO)
+            outer.attr[6] = list(outer.attr[6])
+            outer.attr[6][_t.VMIN] = int(oc[0])
+            outer.attr[6][_t.VTIME] = int(oc[1])
         mode_before = [x if not isinstance(x, list) else list(x) for x in outer.attr]
         displayed = []
 
